@@ -1,0 +1,70 @@
+//go:build verif
+
+// Copyright (C) 2026  mieru authors
+//
+// This program is free software: you can redistribute it and/or modify
+// it under the terms of the GNU General Public License as published by
+// the Free Software Foundation, either version 3 of the License, or
+// (at your option) any later version.
+//
+// This program is distributed in the hope that it will be useful,
+// but WITHOUT ANY WARRANTY; without even the implied warranty of
+// MERCHANTABILITY or FITNESS FOR A PARTICULAR PURPOSE.  See the
+// GNU General Public License for more details.
+//
+// You should have received a copy of the GNU General Public License
+// along with this program.  If not, see <https://www.gnu.org/licenses/>.
+
+package cipher
+
+import "time"
+
+// Verification hooks (build tag "verif"): export the time-dependent key
+// derivation and cache with an explicit clock.
+
+// VerifSaltsAt returns the three salts derived for the instant t.
+func VerifSaltsAt(t time.Time) [][]byte { return saltFromTime(t) }
+
+// VerifKeysAt returns the three keys derived (uncached) for the instant t.
+func VerifKeysAt(password []byte, t time.Time) ([][]byte, error) {
+	blocks, err := newBlockCipherList(password, t)
+	if err != nil {
+		return nil, err
+	}
+	return verifKeys(blocks), nil
+}
+
+func verifKeys(blocks []*aeadBlockCipher) [][]byte {
+	keys := make([][]byte, len(blocks))
+	for i, b := range blocks {
+		keys[i] = append([]byte(nil), b.key[:]...)
+	}
+	return keys
+}
+
+// VerifCachedKeysAt performs a cache lookup with the clock reading now.
+func VerifCachedKeysAt(password string, now time.Time) (keys [][]byte, epoch int64, createTime time.Time, err error) {
+	entry, err := getCachedCiphers(password, now)
+	if err != nil {
+		return nil, 0, time.Time{}, err
+	}
+	return verifKeys(entry.cipherList), entry.epoch, entry.createTime, nil
+}
+
+// VerifTryDecryptAt decrypts with the clock reading now and returns the
+// plaintext and the key that opened it.
+func (d *StatelessDecryptor) VerifTryDecryptAt(ciphertext []byte, now time.Time) ([]byte, []byte, error) {
+	block, plaintext, err := d.tryDecryptAt(ciphertext, nil, now)
+	if err != nil {
+		return nil, nil, err
+	}
+	return plaintext, append([]byte(nil), block.(*aeadBlockCipher).key[:]...), nil
+}
+
+// VerifResetCipherCache empties the process-wide key cache.
+func VerifResetCipherCache() {
+	blockCipherCache.Range(func(k, _ any) bool {
+		blockCipherCache.Delete(k)
+		return true
+	})
+}
